@@ -23,7 +23,8 @@ REPO = os.environ.get("VERIF_REPO", "/repo")
 LEAN = os.path.join(VERIF, "lean")
 HARNESS = os.path.join(VERIF, "harness")
 BUILD = os.path.join(VERIF, ".build")
-BIN = os.path.join(BUILD, "bin")
+_REPO_TAG = "" if REPO == "/repo" else "-" + hashlib.sha1(REPO.encode()).hexdigest()[:8]
+BIN = os.path.join(BUILD, "bin" + _REPO_TAG)
 EVIDENCE = os.path.join(VERIF, "evidence")
 REPLAYS = os.path.join(VERIF, "replays")
 CORPUS = os.path.join(VERIF, "corpus")
@@ -99,6 +100,14 @@ def go_build(name, race=False):
         if os.path.exists(out):
             os.remove(out)
         cmd = ["go", "build", "-tags", "verif"]
+        if REPO != "/repo":
+            # scratch worktree of /repo (used when testing seeded changes): alternate go.mod
+            md = os.path.join(BUILD, "mod" + _REPO_TAG)
+            os.makedirs(md, exist_ok=True)
+            gm = open(os.path.join(HARNESS, "go.mod")).read().replace("=> /repo", "=> " + REPO)
+            open(os.path.join(md, "go.mod"), "w").write(gm)
+            open(os.path.join(md, "go.sum"), "wb").write(open(os.path.join(REPO, "go.sum"), "rb").read())
+            cmd += ["-modfile", os.path.join(md, "go.mod")]
         env = goenv()
         if race:
             cmd.append("-race")
